@@ -416,6 +416,87 @@ Proof.
     symmetry. apply nth_error_None. lia.
 Qed.
 
+Section TheoremsRel.
+  Context {P C : Type}.
+  Variable M : machine P C.
+  Variable mode : emode.
+  Variable spec : bytes -> list (nres P).
+  Variable G : bytes -> Prop.
+  Variable R : C -> bytes -> nat -> Prop.
+  Variable D : C -> bytes -> Prop.
+  Hypothesis OK : consumer_ok_rel M spec G R D.
+  Variable c0 : C.
+  Hypothesis R0 : R c0 [] 0.
+
+  Lemma recv_sequence_rel : forall o ts j r,
+      G (stream_of o) ->
+      nth_error (delivered (results (run_calls M mode (linit c0) o ts))) j = Some r ->
+      r = expected (spec (stream_of o)) j.
+  Proof.
+    intros o ts j r HG H.
+    apply (run_calls_seq M mode spec G R D OK (stream_of o) HG ts (linit c0) o 0 (Inv_init spec R c0 o R0) j r H).
+  Qed.
+
+  Lemma no_partial_delivery_rel : forall o ts s1 tail,
+      G (stream_of o) ->
+      stream_of o = s1 ++ tail -> spec (s1 ++ tail) = spec s1 ->
+      forall j r, nth_error (delivered (results (run_calls M mode (linit c0) o ts))) j = Some r ->
+                  length (spec s1) <= j -> r = RecvAborted.
+  Proof.
+    intros o ts s1 tail HG Hs Hspec j r H Hj.
+    apply recv_sequence_rel in H; [|exact HG]. rewrite Hs, Hspec in H. subst r. unfold expected.
+    replace (nth_error (spec s1) j) with (@None (nres P)); [reflexivity|]. symmetry. apply nth_error_None. exact Hj.
+  Qed.
+
+  Lemma eof_sticky_rel : forall o ts1 rs1 st1 o1,
+      G (stream_of o) ->
+      run_calls M mode (linit c0) o ts1 = (rs1, st1, o1) ->
+      forall t st2 o2 el, receive M mode t st1 o1 = (st2, o2, RecvAborted, el) ->
+      forall ts' o', exists st3, run_calls M mode st2 o' ts' = (map (fun _ => (RecvAborted, o')) ts', st3, o').
+  Proof.
+    intros o ts1 rs1 st1 o1 HG H1 t st2 o2 el H2 ts' o'.
+    destruct (run_calls_inv M mode spec G R D OK _ HG _ _ _ _ _ _ _ (Inv_init spec R c0 o R0) H1) as [i HI].
+    pose proof (receive_inv M mode spec G R D OK _ _ _ _ _ _ _ _ _ HG HI H2) as Hinv. cbn [is_delivered] in Hinv.
+    destruct Hinv as [_ HI2].
+    apply (sticky_calls M mode spec G R D OK _ HG ts' _ _ _ HI2 (receive_aborted_latches M mode _ _ _ _ _ _ H2) o').
+  Qed.
+
+  Lemma timeout_loses_nothing_rel : forall o ts,
+      G (stream_of o) ->
+      let evs := spec (stream_of o) in
+      firstn (S (length evs))
+             (delivered (results (run_calls M mode (linit c0) o (ts ++ repeat None (S (length evs) + raises o)))))
+      = map of_nres evs ++ [RecvAborted].
+  Proof.
+    intros o ts HG evs.
+    rewrite <- map_expected_seq. apply firstn_pointwise.
+    - rewrite run_calls_app.
+      destruct (run_calls M mode (linit c0) o ts) as [[rs1 st1] o1] eqn:E1.
+      pose proof (run_calls_raises M mode _ _ _ _ _ _ E1) as Hr.
+      pose proof (none_calls_deliver M mode (S (length evs) + raises o) (S (length evs)) st1 o1 ltac:(lia)) as Hn.
+      destruct (run_calls M mode st1 o1 (repeat None (S (length evs) + raises o))) as [[rs2 st2] o2].
+      unfold results, delivered in *. cbn [fst] in *. rewrite map_app, filter_app, app_length. lia.
+    - intros j r H. apply recv_sequence_rel in H; [exact H|exact HG].
+  Qed.
+End TheoremsRel.
+
+(* the unrelativised interface is the instance G = everything, D = "R at the full event count" *)
+Lemma consumer_ok_is_rel : forall {P C : Type} (M : machine P C) (spec : bytes -> list (nres P)) (R : C -> bytes -> nat -> Prop),
+    consumer_ok M spec R ->
+    consumer_ok_rel M spec (fun _ => True) R (fun c d => R c d (length (spec d))).
+Proof.
+  intros P C M spec R OK. constructor.
+  - auto.
+  - apply (ok_mono _ _ _ OK).
+  - auto.
+  - intros c d k c' r _ HR Ed. pose proof (ok_drain _ _ _ OK _ _ _ _ _ HR Ed) as H.
+    destruct r; auto. destruct H as [-> H]. auto.
+  - intros c d avail HD Hne _.
+    destruct (ok_take _ _ _ OK c d _ avail HD eq_refl Hne) as (c' & r & n & room & E & Hn & Hp).
+    exists c', r, n, room. split; [exact E|]. split; [exact Hn|].
+    destruct r; auto. destruct Hp as [Hl HR]. split; [exact Hl|]. rewrite Hl. exact HR.
+Qed.
+
 Section Theorems.
   Context {P C : Type}.
   Variable M : machine P C.
@@ -426,50 +507,29 @@ Section Theorems.
   Variable c0 : C.
   Hypothesis R0 : R c0 [] 0.
 
+  Let OKr := consumer_ok_is_rel M spec R OK.
+
   Lemma recv_sequence_proof : forall o ts j r,
       nth_error (delivered (results (run_calls M mode (linit c0) o ts))) j = Some r ->
       r = expected (spec (stream_of o)) j.
-  Proof.
-    intros o ts j r H.
-    apply (run_calls_seq M mode spec R OK (stream_of o) ts (linit c0) o 0 (Inv_init spec R c0 o R0) j r H).
-  Qed.
+  Proof. intros o ts j r. apply (recv_sequence_rel M mode spec _ R _ OKr c0 R0 o ts j r I). Qed.
 
   Lemma no_partial_delivery_proof : forall o ts s1 tail,
       stream_of o = s1 ++ tail -> spec (s1 ++ tail) = spec s1 ->
       forall j r, nth_error (delivered (results (run_calls M mode (linit c0) o ts))) j = Some r ->
                   length (spec s1) <= j -> r = RecvAborted.
-  Proof.
-    intros o ts s1 tail Hs Hspec j r H Hj.
-    apply recv_sequence_proof in H. rewrite Hs, Hspec in H. subst r. unfold expected.
-    replace (nth_error (spec s1) j) with (@None (nres P)); [reflexivity|]. symmetry. apply nth_error_None. exact Hj.
-  Qed.
+  Proof. intros o ts s1 tail. apply (no_partial_delivery_rel M mode spec _ R _ OKr c0 R0 o ts s1 tail I). Qed.
 
   Lemma eof_sticky_proof : forall o ts1 rs1 st1 o1,
       run_calls M mode (linit c0) o ts1 = (rs1, st1, o1) ->
       forall t st2 o2 el, receive M mode t st1 o1 = (st2, o2, RecvAborted, el) ->
       forall ts' o', exists st3, run_calls M mode st2 o' ts' = (map (fun _ => (RecvAborted, o')) ts', st3, o').
-  Proof.
-    intros o ts1 rs1 st1 o1 H1 t st2 o2 el H2 ts' o'.
-    destruct (run_calls_inv M mode spec R OK _ _ _ _ _ _ _ _ (Inv_init spec R c0 o R0) H1) as [i HI].
-    pose proof (receive_inv M mode spec R OK _ _ _ _ _ _ _ _ _ HI H2) as Hinv. cbn [is_delivered] in Hinv.
-    destruct Hinv as [_ HI2].
-    apply (sticky_calls M mode spec R OK _ ts' _ _ _ HI2 (receive_aborted_latches M mode _ _ _ _ _ _ H2) o').
-  Qed.
+  Proof. intros o ts1 rs1 st1 o1. apply (eof_sticky_rel M mode spec _ R _ OKr c0 R0 o ts1 rs1 st1 o1 I). Qed.
 
   Lemma timeout_loses_nothing_proof : forall o ts,
       let evs := spec (stream_of o) in
       firstn (S (length evs))
              (delivered (results (run_calls M mode (linit c0) o (ts ++ repeat None (S (length evs) + raises o)))))
       = map of_nres evs ++ [RecvAborted].
-  Proof.
-    intros o ts evs.
-    rewrite <- map_expected_seq. apply firstn_pointwise.
-    - rewrite run_calls_app.
-      destruct (run_calls M mode (linit c0) o ts) as [[rs1 st1] o1] eqn:E1.
-      pose proof (run_calls_raises M mode _ _ _ _ _ _ E1) as Hr.
-      pose proof (none_calls_deliver M mode (S (length evs) + raises o) (S (length evs)) st1 o1 ltac:(lia)) as Hn.
-      destruct (run_calls M mode st1 o1 (repeat None (S (length evs) + raises o))) as [[rs2 st2] o2].
-      unfold results, delivered in *. cbn [fst] in *. rewrite map_app, filter_app, app_length. lia.
-    - intros j r H. apply recv_sequence_proof in H. exact H.
-  Qed.
+  Proof. intros o ts. apply (timeout_loses_nothing_rel M mode spec _ R _ OKr c0 R0 o ts I). Qed.
 End Theorems.
